@@ -37,7 +37,16 @@ pub fn build() -> (Vec<u8>, Vec<u8>) {
     e.push((7, XEntry::Free { next: 0, gen: 1 }));
     let o = d.obj(9, 0, b"[2 0 R 7 0 R]");
     e.push((9, XEntry::InUse { off: o, gen: 0 }));
-    d.xref_table(&e, 10, "/Root 5 0 R", None, Split::Min);
+    // 10: a page under 16 nested /Pages nodes 11 (root) .. 26
+    for k in 11..=26u64 {
+        let parent = if k == 11 { String::new() } else { format!(" /Parent {} 0 R", k - 1) };
+        let kid = if k == 26 { 10 } else { k + 1 };
+        let o = d.obj(k, 0, format!("<< /Type /Pages /Kids [{} 0 R] /Count 1{} >>", kid, parent).as_bytes());
+        e.push((k, XEntry::InUse { off: o, gen: 0 }));
+    }
+    let o = d.obj(10, 0, b"<< /Type /Page /Parent 26 0 R /MediaBox [0 0 1 1] >>");
+    e.push((10, XEntry::InUse { off: o, gen: 0 }));
+    d.xref_table(&e, 27, "/Root 5 0 R", None, Split::Min);
     (d.buf, z)
 }
 
